@@ -16,6 +16,7 @@ import shutil
 import struct
 import sys
 import tempfile
+import unicodedata
 from unittest import mock
 from unittest.mock import AsyncMock, MagicMock
 
@@ -54,10 +55,20 @@ RULE = ("pairing sets over all loaded transports (IP with/without Connection key
         "regeneration, link drops -> reconnect -> re-subscription, catch-up poll after an advertisement = GetAllParams); the process ends by shutdown() or is killed (its tasks die); oracle: after the restart the "
         "pairing holds exactly what the live pairing held when the process ended (c#, s#, key, database with values) and - where the live pairing had taken them over - the accessory's own counter / the advertised "
         "number / the key the accessory generated. "
+        "caller-chosen strings that become keys or file-name components (streams key-strings / cache-keys): aliases - and pairing-file names, folders that do not exist yet, cache-file names, cache keys - drawn from "
+        "ASCII, empty / blank, very long (to 68 kB), whitespace, control characters, path-like, JSON-special and escaped spellings, non-BMP, and the unicode classes in which equivalent texts differ as strings "
+        "(precomposed vs combining sequences, singleton decompositions such as U+2126 / U+212B / CJK compatibility ideographs, composition exclusions, Hangul syllables vs jamo, reordered marks, compatibility forms, "
+        "case pairs that are not 1:1 - sharp s, dotted / dotless i, final sigma -, look-alikes, zero-width and variation selectors), one at a time AND as families of two to seven spellings that some normalisation "
+        "(NFC / NFD / NFKC / NFKD, case folding, trimming, escaping, look-alike substitution, truncation) identifies, the spellings of a family on different transports, pairing ids in upper / lower / mixed casing; "
+        "file written by load_pairing + save_data or by an independent writer (raw or \\u-escaped), 2-4 lives of the real top-level Controller: load_data / load_pairing per record -> [another spelling added through "
+        "load_pairing] -> [restore_accessories_state into a CharacteristicCacheFile] -> [save_data] -> restart; oracle = the harness's own record: every life holds, and every rewrite leaves on file, exactly the alias strings "
+        "saved so far, each with exactly its own record (and accessory database, numbers, key), none lost, merged or renamed; a sibling file whose name is an equivalent spelling stays byte-identical; "
+        "CharacteristicCacheFile histories under such keys (update / delete, restart after every step): every key gives back exactly its own entry. "
         "model streams: random characteristic dictionaries (every optional key absent / null / falsy / set, types in and outside the metadata table in every spelling), whole accessories (service iids 0 / duplicated, links absent / empty / dangling / 0), "
         "every repository fixture, histories of CharacteristicCacheFile operations with restarts and lost/corrupted files - implementation vs Lean model attribute by attribute; for dictionaries inside the theorem's hypotheses the restart oracle is checked on the implementation. "
         "non-trivial = distinct (pairing-set shape, crash point) / (fixture, check) / prefix length / (transport kinds, writer, lives) / (initial cache state, transport, construction, op kinds) / "
-        "(initial cache state, transport, construction, radio, way the process ends, per life the op kinds with the direction each number moved)")
+        "(initial cache state, transport, construction, radio, way the process ends, per life the op kinds with the direction each number moved) / "
+        "(string classes and the normalisations relating the family, writer, lives, own file name / folder / cache file)")
 TRUSTED = ["POSIX rename atomicity of os.replace for a process crash", "orjson/commentjson parse what they wrote; a strict prefix of an object's encoding does not parse (checked exhaustively on this run's files)"]
 ASSUMPTIONS = ["file effects are observed by replacing open/os.replace/os.fsync in the namespace of aiohomekit.controller.controller with a recording virtual file system; "
                "crash states are materialised in a temporary directory outside /repo and /verif",
@@ -192,6 +203,13 @@ def run(ctx: Ctx, driver: Driver):
         toplevel_cache(ctx, rng, loop, tmpdir)
         cache_numbers(ctx, rng, tmpdir)
         run_entity(ctx, driver)
+        # (drawn last, so that the streams above keep their histories)
+        import time
+        t0 = time.monotonic()
+        key_strings(ctx, rng, loop, tmpdir)
+        cache_keys(ctx, rng, tmpdir)
+        ctx.notes.append(f"streams key-strings + cache-keys: {ctx.dist['key-strings:family'] + ctx.dist['key-strings:single'] + ctx.dist['key-strings:random']} + "
+                         f"{ctx.dist['cache-keys:family'] + ctx.dist['cache-keys:random']} trials in {time.monotonic() - t0:.1f} s")
     finally:
         shutil.rmtree(tmpdir, ignore_errors=True)
         loop.close()
@@ -1541,6 +1559,595 @@ def cache_numbers(ctx, rng, tmpdir):
             ctx.sample(case)
 
 
+# ---- caller-chosen strings that become keys or file-name components: aliases, file names, cache keys -------------------------
+
+def _nfd(xs):
+    return [unicodedata.normalize("NFD", x) for x in xs]
+
+
+_COMPOSED = ["\u00fc", "\u00e9", "\u00c5", "\u00f1", "\u01d6", "\u1ec7", "\u00f6", "\u00c7", "\u1e69", "\u0439"]
+_HANGUL = ["\ud55c", "\uae00", "\uac00", "\ud7a3"]
+STR_ATOMS = {
+    "ascii": ["a", "Z", "kitchen", "Lamp", "x1", "0", "q", "Flur", "sensor-2", "_"],
+    "composed": _COMPOSED,                                   # precomposed letters (NFC) ...
+    "decomposed": _nfd(_COMPOSED),                           # ... and the same letters as base + combining marks (NFD; what macOS produces)
+    "singleton": ["\u2126", "\u212b", "\u212a", "\u0340", "\u0343", "\u0374", "\u037e", "\u1fbe", "\u2000", "\u2329", "\uf900", "\ufa10", "\U0002f800"],  # one code point whose canonical form is ANOTHER code point
+    "comp-excl": ["\u0958", "\u09dc", "\u0f43", "\ufb1d", "\u2adc", "\U0001d15e"],  # composition exclusions: NFC DEcomposes them
+    "hangul": _HANGUL,
+    "jamo": _nfd(_HANGUL),
+    "reorder": ["q\u0307\u0323", "q\u0323\u0307", "a\u0315\u0300\u05ae\u0062", "\u0061\u0328\u0301", "\u0061\u0301\u0328"],  # combining marks whose canonical order differs
+    "compat": ["\ufb01", "\uff21", "\u00b2", "\u00bd", "\u338f", "\u2460", "\ufdfa", "\uff76", "\u00b5", "\u017f", "\u0133", "\u01c6", "\u2122", "\u2026", "\u1e9b", "\uff0f", "\uff02"],  # change under NFKC only
+    "case": ["\u00df", "\u1e9e", "SS", "ss", "\u0130", "\u0131", "I", "i", "\u01c5", "\u03a3", "\u03c3", "\u03c2", "\u0149", "\ufb00", "\u1f88", "\u0345", "Kitchen", "KITCHEN"],  # case pairs that are not 1:1
+    "lookalike": ["A", "\u0410", "\u0391", "o", "\u043e", "\u03bf", "e", "\u0435", "l", "1", "\u2113", "|", "\u0131", "\u0269"],
+    "space": [" ", "  ", "\t", "\n", "\r", "\r\n", "\u00a0", "\u2003", "\u3000", "\u200b", "\u200d", "\ufeff", "\u2028", "\u2060", "\u00ad", "\u0085"],
+    "json": ['"', "\\", "/", "{", "}", "[", "]", ":", ",", "\\u0041", "\\n", '\\"', "//", "/*", "*/", "#", "'", "\\u00fc", "\\ud83d", '":{"', '"}'],
+    "control": ["\x00", "\x01", "\x08", "\x0c", "\x1b", "\x1f", "\x7f", "\u009f"],
+    "path": ["/", "..", "../", "\\", ".", "~", "C:\\", "/etc/", "*", "?", "|", "<", ">", "%2F", "%00", "$HOME", "`", ".json", ".tmp"],
+    "nonbmp": ["\U0001f4a1", "\U0001d49c", "\U0001f468\u200d\U0001f469\u200d\U0001f467", "\U0001f1e9\U0001f1ea", "\U0001f44d\U0001f3fd", "\U000e0041", "\U0010ffff", "\U00020000", "\u2615\ufe0f", "\u2615"],
+    "bidi": ["\u202e", "\u200f", "\u0622", "\u0627\u0653", "\u05e9\u05c1\u05c2", "\u05e9\u05c2\u05c1", "\u0644\u0627", "\ufefb"],
+    "nonchar": ["\ufffe", "\uffff", "\ufdd0", "\ufffd", "\ue000"],
+    "literal": ["null", "true", "NaN", "__proto__", "constructor", "-1", "1e3", "0.0", "\u0660", "\uff10", "None", "alias"],
+}
+_LOOKALIKE = {"A": "\u0410\u0391", "a": "\u0430", "B": "\u0412\u0392", "c": "\u0441", "C": "\u0421", "e": "\u0435", "E": "\u0415\u0395", "H": "\u041d\u0397", "i": "\u0456\u0131", "I": "\u0406\u0399l", "K": "\u212a\u041a\u039a",
+              "l": "I1\u2113", "o": "\u043e\u03bf0", "O": "\u041e\u039f0", "p": "\u0440", "P": "\u0420\u03a1", "s": "\u0455", "T": "\u0422\u03a4", "x": "\u0445", "y": "\u0443", "0": "O\u0660", "1": "l", "-": "\u2010\u2212\u2013", " ": "\u00a0\u2003",
+              "\u03a9": "\u2126", "\u2126": "\u03a9", "\u00c5": "\u212b", "\u00b5": "\u03bc", "\u03bc": "\u00b5", ";": "\u037e", "/": "\u2215\uff0f", '"': "\u201c\uff02", "'": "\u2019"}
+
+# the classes the clause 'unicode aliases' spans, once each whatever the seed: strings that are equal under SOME normalisation
+# (canonical / compatibility composition, case folding, trimming, look-alike characters, escaping) but different as strings
+STRING_FAMILIES = [
+    ("nfc-nfd", ["K\u00fcche", "Ku\u0308che"]),
+    ("nfc-nfd-double", ["\u01d6", "\u00fc\u0304", "u\u0308\u0304"]),
+    ("singleton", ["Boiler 10 k\u2126", "Boiler 10 k\u03a9"]),
+    ("singleton-angstrom", ["\u212b", "\u00c5", "A\u030a"]),
+    ("cjk-compat", ["\uf900", "\u8c48", "\U0002f800", "\u4e3d"]),
+    ("composition-exclusion", ["\u0958", "\u0915\u093c", "\ufb1d", "\u05d9\u05b4"]),
+    ("hangul", ["\ud55c\uae00", "\u1112\u1161\u11ab\u1100\u1173\u11af"]),
+    ("reorder", ["q\u0307\u0323", "q\u0323\u0307", "\u1e0b\u0323"]),
+    ("nfkc", ["\ufb01n", "fin", "\uff21\uff22", "AB", "m\u00b2", "m2"]),
+    ("nfkc-nonbmp", ["\U0001d49c", "A", "\U0001d7d8", "0"]),
+    ("case", ["Kitchen", "kitchen", "KITCHEN"]),
+    ("sharp-s", ["Stra\u00dfe", "STRASSE", "strasse", "Stra\u1e9ee"]),
+    ("dotless-i", ["I\u015f\u0131k", "\u0130\u015fik", "i\u015fik", "i\u0307\u015fik"]),
+    ("final-sigma", ["\u03a3\u0391\u03a3", "\u03c3\u03b1\u03c3", "\u03c3\u03b1\u03c2"]),
+    ("lookalike", ["Alpha", "\u0410lpha", "\u0391lpha", "AIpha"]),
+    ("whitespace", ["a b", " a b", "a b ", "a\u00a0b", "a  b", "a\tb", "a\nb"]),
+    ("blank", ["", " ", "\u200b", "\t", "\u00a0", "\ufeff"]),
+    ("zero-width", ["lamp", "lamp\u200b", "la\u00admp", "\ufefflamp", "la\u200dmp"]),
+    ("variation-selector", ["\u2615", "\u2615\ufe0f", "\u2615\ufe0e"]),
+    ("emoji", ["\U0001f4a1", "\U0001f4a1\U0001f4a1", "\U0001f468\u200d\U0001f469\u200d\U0001f467", "\U0001f468\U0001f469\U0001f467"]),
+    ("control", ["a", "a\x00", "a\x00b", "\x00a", "a\x1f", "a\x7f"]),
+    ("json-special", ['a"b', 'a\\"b', "a\\u0022b", "a\\\\b", "a\\b", "a/b", "a\\/b"]),
+    ("json-structure", ['{"x":1}', "[]", "null", "true", '"', '":{"Connection":"IP"},"x', "a,b", "a:b"]),
+    ("escaped-spelling", ["\u00fc", "\\u00fc", "\\u00FC", "\U0001f4a1", "\\ud83d\\udca1"]),
+    ("path-like", ["a/b", "a\\b", "../a", "a/../b", "./a", "/a", "a/", "~a", "."]),
+    ("numeric", ["0", "00", "0.0", "\u0660", "\uff10", "-0", "1e0", "1"]),
+    ("long", ["x" * 4096, "x" * 4095 + "X", "x" * 4097, "u\u0308" * 2000, "\u00fc" * 2000, "\U0001f4a1" * 17000]),
+    ("nonchar", ["\uffff", "\ufffe", "\ufffd", "\ue000", "\U0010ffff"]),
+    ("bidi", ["abc", "\u202eabc", "abc\u200f", "\u0622", "\u0627\u0653", "\u0644\u0627", "\ufefb"]),
+]
+
+
+def string_variants(s):
+    """{how: t}: strings that a normalising / folding / trimming / escaping step would map `s` to or identify with `s`,
+    and that differ from `s` as strings"""
+    import urllib.parse
+    n = unicodedata.normalize
+    v = {f: n(f, s) for f in ("NFC", "NFD", "NFKC", "NFKD")}
+    v.update({"casefold": s.casefold(), "lower": s.lower(), "upper": s.upper(), "title": s.title(), "swapcase": s.swapcase(), "capitalize": s.capitalize(),
+              "nfkc-casefold": n("NFKC", n("NFKC", s).casefold()), "nfd-upper": n("NFD", s).upper(), "nfc-lower": n("NFC", s.lower()),
+              "strip": s.strip(), "rstrip": s.rstrip(), "collapse": " ".join(s.split()), "space+": s + " ", "+space": " " + s, "nbsp": s.replace(" ", "\u00a0"), "newline+": s + "\n",
+              "zwsp+": s + "\u200b", "+bom": "\ufeff" + s, "shy": s[:1] + "\u00ad" + s[1:], "vs16+": s + "\ufe0f", "zwj": s[:1] + "\u200d" + s[1:],
+              "nul+": s + "\x00", "nul-cut": s.split("\x00")[0], "no-control": "".join(c for c in s if unicodedata.category(c) not in ("Cc", "Cf")),
+              "json-escaped": json.dumps(s)[1:-1], "json-escaped-raw": json.dumps(s, ensure_ascii=False)[1:-1],
+              "mojibake": s.encode("utf-8").decode("latin-1"), "percent": urllib.parse.quote(s, safe=""), "unquote": urllib.parse.unquote(s),
+              "slash": s.replace("\\", "/"), "basename": s.replace("\\", "/").rsplit("/", 1)[-1], "normpath": os.path.normpath(s) if s else s,
+              "cut255": s[:255], "cut255-bytes": s.encode("utf-8")[:255].decode("utf-8", "ignore"), "cut64": s[:64],
+              "ascii-only": s.encode("ascii", "ignore").decode(), "no-marks": "".join(c for c in n("NFD", s) if not unicodedata.combining(c)),
+              "bmp-only": "".join(c for c in s if ord(c) < 0x10000)})
+    for i, ch in enumerate(s):
+        if ch in _LOOKALIKE:
+            for j, alt in enumerate(_LOOKALIKE[ch][:3]):
+                v[f"lookalike{j}"] = s[:i] + alt + s[i + 1:]
+            break
+    return {how: t for how, t in v.items() if t != s}
+
+
+def gen_string(rng):
+    """(classes, string): a caller-chosen name - plain ASCII now and then, otherwise atoms of one to three character classes
+    between bits of ASCII; sometimes long"""
+    r = rng.random()
+    if r < 0.08:
+        return ("ascii",), rng.choice(STR_ATOMS["ascii"]) + rng.choice(["", "-1", " 2", "_b"])
+    classes = rng.sample(sorted(STR_ATOMS), rng.choice([1, 1, 1, 2, 2, 3]))
+    parts = []
+    for _ in range(rng.choice([1, 1, 2, 2, 3, 4, 6])):
+        parts.append(rng.choice(STR_ATOMS[rng.choice(classes)]))
+        if rng.random() < 0.5:
+            parts.append(rng.choice(STR_ATOMS["ascii"] + STR_ATOMS["case"][-2:] + [" ", "-", " "]))
+    rng.shuffle(parts)
+    s = "".join(parts)
+    if rng.random() < 0.06:
+        s = s * rng.choice([40, 300, 2000])
+        classes = classes + ["long"]
+    return tuple(sorted(classes)), s
+
+
+def gen_family(rng, size, base=None):
+    """(label, members): `size` different strings that some normalisation identifies (the base string, variants of it and -
+    now and then - variants of a variant)"""
+    classes, s = base if base is not None else gen_string(rng)
+    members, hows = [s], []
+    pool = sorted(string_variants(s).items())
+    rng.shuffle(pool)
+    while pool and len(members) < size:
+        how, t = pool.pop()
+        if t in members:
+            continue
+        members.append(t)
+        hows.append(how)
+        if rng.random() < 0.25:
+            more = sorted((h, u) for h, u in string_variants(t).items() if u not in members)
+            if more:
+                h2, u = rng.choice(more)
+                pool.append((how + ">" + h2, u))
+    if size > 1 and rng.random() < 0.3:
+        members = members[1:]  # the family without the string it was derived from
+    rng.shuffle(members)
+    return "+".join(classes) + ("/" + ",".join(hows) if hows else ""), members
+
+
+def fs_component(s, fallback="f"):
+    """a file-name component made from a generated string: what no POSIX file name can hold (NUL, '/') is dropped, '.' / '..' /
+    '' are prefixed, the UTF-8 encoding is kept under 120 bytes (room for the library's own suffixes)"""
+    s = s.replace("/", "").replace("\x00", "")
+    out, n = [], 0
+    for ch in s:
+        n += len(ch.encode("utf-8"))
+        if n > 120:
+            break
+        out.append(ch)
+    s = "".join(out)
+    return fallback + s if s in ("", ".", "..") else s
+
+
+def mixed_case(rng, s, mode):
+    return {"upper": s.upper(), "lower": s.lower()}.get(mode) or "".join(c.upper() if rng.random() < 0.5 else c.lower() for c in s)
+
+
+def tiny_db(marker, n):
+    """a small accessory database whose values name their owner"""
+    u = "%08X-0000-1000-8000-0026BB765291"
+    return [{"aid": 1, "services": [
+        {"iid": 1, "type": u % 0x3E, "characteristics": [
+            {"iid": 2, "type": u % 0x23, "perms": ["pr"], "format": "string", "value": marker},
+            {"iid": 3, "type": u % 0x30, "perms": ["pr"], "format": "string", "value": "sn-%d" % n},
+            {"iid": 4, "type": u % 0x14, "perms": ["pw"], "format": "bool"}]},
+        {"iid": 8, "type": u % 0x43, "characteristics": [
+            {"iid": 9, "type": u % 0x25, "perms": ["pr", "pw", "ev"], "format": "bool", "value": bool(n % 2)},
+            {"iid": 10, "type": u % 0x08, "perms": ["pr", "pw", "ev"], "format": "int", "value": n % 101, "minValue": 0, "maxValue": 100, "minStep": 1, "unit": "percentage"}]}]}]
+
+
+def tiny_view(pairing):
+    if pairing.accessories is None:
+        return None
+    ser = pairing.accessories.serialize()
+    key = pairing.broadcast_key
+    try:
+        marker = [c.get("value") for a in ser for s in a["services"] for c in s["characteristics"] if (a["aid"], c["iid"]) == (1, 2)]
+    except Exception:  # noqa: BLE001
+        marker = ["<unreadable>"]
+    return [marker[0] if marker else None, pairing.config_num, key.hex() if isinstance(key, (bytes, bytearray)) else key, pairing.state_num]
+
+
+def show_keys(keys, limit=6):
+    keys = list(keys)
+    return "[" + ", ".join(ascii(k) if len(k) <= 40 else ascii(k[:24]) + f"...({len(k)} chars)" for k in keys[:limit]) + (f", ... {len(keys)} in all" if len(keys) > limit else "") + "]"
+
+
+def diff_keyed(got, want):
+    """`got` against the harness's record `want` (both {alias: record}): every alias present under exactly its own string, with
+    exactly its own record, nothing else"""
+    missing = [a for a in want if a not in got]
+    extra = [a for a in got if a not in want]
+    if missing:
+        m = missing[0]
+        near = [e for e in extra if set(string_variants(m).values()) & ({e} | set(string_variants(e).values()))] or \
+               [a for a in got if a in want and got[a].get("AccessoryPairingID") == want[m].get("AccessoryPairingID")]
+        return (f"the pairing saved under {ascii(m) if len(m) <= 60 else ascii(m[:40]) + '...'} (Connection={want[m].get('Connection')!r}, AccessoryPairingID={want[m].get('AccessoryPairingID')}) is not found under that alias; "
+                f"present: {show_keys(got)}" + (f" - its record or an equivalent spelling sits under {show_keys(near, 2)}" if near else "")
+                + (f"; {len(want) - len(got)} pairing(s) fewer than were saved" if len(got) < len(want) else ""))
+    if extra:
+        return f"an alias that was never saved is present: {show_keys(extra, 3)}"
+    for a in want:
+        if got[a] != want[a]:
+            ks = sorted(k for k in set(got[a]) | set(want[a]) if got[a].get(k, UNKNOWN) != want[a].get(k, UNKNOWN))
+            owner = [b for b in want if b != a and want[b].get("AccessoryPairingID") == got[a].get("AccessoryPairingID")]
+            return (f"alias {show_keys([a], 1)}: field(s) {ks} are {[got[a].get(k, '<absent>') for k in ks][:3]} instead of {[want[a].get(k, '<absent>') for k in ks][:3]}"
+                    + (f" - that is the record saved under {show_keys(owner, 1)}" if owner else ""))
+    return None
+
+
+async def _end_of_process():
+    me = asyncio.current_task()
+    rest = [t for t in asyncio.all_tasks() if t is not me and not t.done()]
+    for t in rest:
+        t.cancel()
+    if rest:
+        await asyncio.gather(*rest, return_exceptions=True)
+
+
+def keys_trial(out, loop, tmpdir, case):
+    """stream 'key-strings': pairings under caller-chosen aliases (case['records'] = [alias, pairing record, life in which it
+    is added, [marker, c#, key, s#] or None]) are written to a pairing file with a caller-chosen name (by the library - load_pairing
+    + save_data - or by an independent writer), then process lives of the real top-level Controller follow: load (load_data /
+    load_pairing per record), [add the records of this life through load_pairing], [save_data].  The harness's own record says
+    what every life must hold and what every rewrite must leave on file: exactly the aliases saved so far - the very strings -
+    each with exactly its own record (and, with a cache file, its own accessory database, numbers and key)."""
+    rng = random.Random(case["seed"])
+    records = [(a, pd, int(k), db) for a, pd, k, db in case["records"]]
+    base = os.path.join(tmpdir, "keys")
+    shutil.rmtree(base, ignore_errors=True)
+    os.makedirs(base)
+    folder = os.path.join(base, *case.get("dir", []))
+    target = os.path.join(folder, case.get("fname", "pairing.json"))
+    cache_path = pathlib.Path(base, case["cache"]) if case.get("cache") else None
+    sibling = case.get("sibling")
+    sib_path = sib_bytes = None
+    shown = ascii("/".join(case.get("dir", []) + [case.get("fname", "pairing.json")]))
+    restore = quiet_logs()
+    want = {}      # alias -> record: the harness's record of what has been saved
+    dbs = {}       # alias -> [marker, c#, key, s#] once handed to the pairing
+    done = [0]     # lives that were lived to their end
+
+    def expect(alias, pd):
+        want[alias] = {**pd, "Connection": pd.get("Connection", "IP")}
+
+    def on_file(step):
+        try:
+            with builtins.open(target, "rb") as fp:
+                data = json.loads(fp.read().decode("utf-8"))
+            return diff_keyed(data, want) if isinstance(data, dict) else "the file is not a JSON object"
+        except Exception as e:  # noqa: BLE001
+            return f"the file cannot be read back by an independent parser ({type(e).__name__}: {str(e)[:60]})"
+
+    def controller_cache():
+        return CharacteristicCacheFile(cache_path) if cache_path is not None else "default"
+
+    async def life0():
+        nonlocal sib_path, sib_bytes
+        if case["writer"] != "library" or sibling:
+            os.makedirs(folder, exist_ok=True)   # (otherwise the folder is save_data's to create)
+        first = [(a, pd) for a, pd, k, _ in records if k == 0]
+        if sibling:
+            sib_path = os.path.join(folder, sibling[0])
+            sib_bytes = json.dumps({a: pd for a, pd in sibling[1]}, ensure_ascii=False).encode("utf-8")
+            with builtins.open(sib_path, "wb") as fp:
+                fp.write(sib_bytes)
+        if case["writer"] == "library":
+            async with process_life("toplevel") as c0:
+                try:
+                    for alias, pd in first:
+                        c0.load_pairing(alias, copy.deepcopy(pd))
+                        expect(alias, pd)
+                    c0.save_data(target)
+                except Exception as e:  # noqa: BLE001
+                    out.violation("alias/save-raises", f"life 0: load_pairing + save_data of valid pairing records under the aliases {show_keys(a for a, _ in first)} raised {type(e).__name__}: {str(e)[:80]}", case)
+                    return False
+                await _end_of_process()
+            bad = on_file("life 0")
+            if bad:
+                out.violation("alias/save-loses-pairing", f"life 0 (load_pairing x{len(first)} + save_data to {shown}): the pairing file does not hold what was saved: {bad}", case)
+                return False
+        else:
+            for alias, pd in first:
+                expect(alias, pd)
+            text = json.dumps({a: pd for a, pd in first}, ensure_ascii=case["writer"] == "json-ascii", indent=rng.choice([None, 2, 4]), sort_keys=rng.random() < 0.3)
+            with builtins.open(target, "wb") as fp:
+                fp.write(text.encode("utf-8"))
+        done[0] += 1
+        return True
+
+    async def life(n, load, save):
+        try:
+            cache = controller_cache()
+        except Exception as e:  # noqa: BLE001
+            out.violation("cache/start-up-raises", f"life {n}: CharacteristicCacheFile({ascii(case.get('cache'))}) on the file the previous life wrote raised {type(e).__name__}: {str(e)[:80]}", case)
+            return False
+        async with process_life("toplevel", cache) as c:
+            writer = "an earlier life's save_data" if any(sv for _, sv in case["lives"][:n - 1]) else {"library": "life 0's save_data"}.get(case["writer"], "an independent JSON writer")
+            step = f"life {n} ({load}{'+save_data' if save else ''}; file {shown} written by {writer})"
+            try:
+                if load == "load_data":
+                    c.load_data(target)
+                else:
+                    with builtins.open(target, "rb") as fp:
+                        data = json.loads(fp.read().decode("utf-8"))
+                    for alias, pd in data.items():
+                        c.load_pairing(alias, pd)
+            except Exception as e:  # noqa: BLE001
+                out.violation("alias/load-raises", f"{step}: loading the saved pairings {show_keys(want)} raised {type(e).__name__}: {str(e)[:80]}", case)
+                return False
+
+            def held():
+                return {alias: dict(p.pairing_data) for alias, p in c.aliases.items()}
+            bad = diff_keyed(held(), want)
+            if bad:
+                out.violation("alias/pairing-not-read-back", f"{step}: {len(want)} pairings saved under {show_keys(want)}: after the restart {bad}", case)
+                if not save:
+                    return False
+            # the accessory databases the earlier lives handed to these pairings
+            if cache_path is not None and not bad:
+                for alias, dbrec in dbs.items():
+                    got = tiny_view(c.aliases[alias])
+                    if got != dbrec:
+                        out.violation("alias/cache-entry-not-read-back", f"{step}: the pairing under {show_keys([alias], 1)} (AccessoryPairingID {want[alias]['AccessoryPairingID']!r}) was given the accessory database "
+                                      f"[marker, c#, key, s#] = {dbrec} in an earlier life; after the restart it holds {got}", case)
+                        return False
+            # this life's additions: another device is paired / added under a new alias
+            try:
+                for alias, pd, k, _ in records:
+                    if k == n:
+                        c.load_pairing(alias, copy.deepcopy(pd))
+                        expect(alias, pd)
+            except Exception as e:  # noqa: BLE001
+                out.violation("alias/load-pairing-raises", f"{step}: load_pairing of a valid record under a new alias raised {type(e).__name__}: {str(e)[:80]}", case)
+                return False
+            if not bad:
+                bad = diff_keyed(held(), want)
+                if bad:
+                    out.violation("alias/pairing-displaced", f"{step}: after adding {show_keys([a for a, _, k, _ in records if k == n])} through load_pairing: {bad}", case)
+                    if not save:
+                        return False
+            if cache_path is not None and not bad:
+                try:
+                    for alias, pd, k, dbrec in records:
+                        if dbrec is not None and alias not in dbs and k <= n:
+                            marker, cn, key, sn = dbrec
+                            c.aliases[alias].restore_accessories_state(tiny_db(marker, cn), cn, bytes.fromhex(key) if key else None, sn)
+                            dbs[alias] = list(dbrec)
+                except Exception as e:  # noqa: BLE001
+                    out.violation("cache/update-raises", f"{step}: restore_accessories_state on the pairing under {show_keys([alias], 1)} raised {type(e).__name__}: {str(e)[:80]}", case)
+                    return False
+            ok = not bad
+            if save:
+                try:
+                    c.save_data(target)
+                except Exception as e:  # noqa: BLE001
+                    out.violation("alias/save-raises", f"{step}: save_data raised {type(e).__name__}: {str(e)[:80]}", case)
+                    return False
+                badf = on_file(step)
+                if badf:
+                    out.violation("alias/rewrite-loses-pairing", f"{step}: the rewritten pairing file no longer holds what was saved ({len(want)} pairings under {show_keys(want)}): {badf}", case)
+                    ok = False
+            await _end_of_process()
+        done[0] += 1
+        return ok
+
+    async def go():
+        if not await life0():
+            return
+        for n, (load, save) in enumerate(case["lives"], 1):
+            if not await life(n, load, save):
+                return
+        if sib_path is not None:
+            try:
+                with builtins.open(sib_path, "rb") as fp:
+                    now = fp.read()
+            except OSError as e:
+                now = f"<{type(e).__name__}>".encode()
+            if now != sib_bytes:
+                out.violation("alias/other-file-changed", f"another pairing file in the same folder, {ascii(sibling[0])} (the file used is {shown}), was "
+                              f"{'removed' if now.startswith(b'<') else 'changed'} by the saves", case)
+    try:
+        loop.run_until_complete(go())
+    except Exception as e:  # noqa: BLE001
+        out.violation("alias/start-up-raises", f"starting / stopping the Controller around the pairing file with {show_keys(a for a, *_ in records)} raised {type(e).__name__}: {str(e)[:80]}", case)
+    finally:
+        restore()
+    return done[0]
+
+
+def key_string_cases(ctx, rng):
+    """(label, case) for the stream 'key-strings': every directed family all together and one member at a time, then random
+    sets of one to three families (two or three equivalent spellings each) plus unrelated aliases"""
+    kinds = [k for k in ("IP", "CoAP", "BLE", "IP-legacy", "IP-noips") if HAVE[k.split("-")[0]]]
+
+    def build(label, groups, later=False, exotic=False):
+        records, i, seen = [], 0, set()
+        shift = rng.randrange(len(kinds))
+        for g, members in enumerate(groups):
+            for m, alias in enumerate(members):
+                if alias in seen:
+                    continue
+                seen.add(alias)
+                i += 1
+                pd = rand_pairing(rng, i, kinds[(shift + g + m) % len(kinds)])  # the spellings of one family sit on different transports
+                pd["AccessoryPairingID"] = mixed_case(rng, pd["AccessoryPairingID"], rng.choice(["upper", "upper", "lower", "mixed"]))
+                if rng.random() < 0.3:
+                    pd["iOSPairingId"] = mixed_case(rng, pd["iOSPairingId"], rng.choice(["upper", "mixed"]))
+                records.append([alias, pd, 0, None])
+        n_lives = rng.choice([2, 3, 3, 4])
+        lives = [[rng.choice(["load_data", "load_data", "load_data", "load_pairing"]), rng.random() < 0.75] for _ in range(n_lives)]
+        lives[-1] = ["load_data", False]
+        if rng.random() < 0.6:
+            lives[0] = ["load_data", True]   # save -> restart -> save -> restart
+        if later and len(records) > 1:
+            # one spelling arrives later: the device is added in life 1 or 2 and saved there
+            k = rng.randrange(1, n_lives)
+            records[rng.randrange(len(records))][2] = k
+            lives[k - 1][1] = True
+            if all(r[2] for r in records):
+                records[0][2] = 0
+        case = {"stream": "key-strings", "label": label, "records": records, "writer": rng.choice(["json", "json-ascii", "library", "library"]), "lives": lives, "seed": rng.getrandbits(32)}
+        if exotic:
+            r = rng.random()
+            if r < 0.5:
+                fam = gen_family(rng, 2)[1]
+                names = [fs_component(x) + ".json" for x in fam]
+                case["fname"] = names[0]
+                if len(names) > 1 and names[1] != names[0] and rng.random() < 0.6:
+                    other = rand_pairing(rng, 99, kinds[0])
+                    case["sibling"] = [names[1], [[records[0][0], other]]]
+            if rng.random() < 0.3:
+                case["dir"] = [fs_component(gen_string(rng)[1], "d") for _ in range(rng.choice([1, 1, 2]))]
+            if rng.random() < 0.4:
+                case["cache"] = fs_component(gen_string(rng)[1], "c") + ".charmap" if rng.random() < 0.5 else "charmap.json"
+                for j, rec in enumerate(records):
+                    if rng.random() < 0.8:
+                        rec[3] = ["db of #%d" % j, rng.choice([1, 2, 255, 256, 65535, rng.randrange(1, 65536)]), rng.choice([None, "%064x" % rng.getrandbits(256)]), rng.choice([None, 1, 65535, rng.randrange(1, 65536)])]
+        return label, case
+
+    for name, members in STRING_FAMILIES:
+        yield build("family:" + name, [members], later=rng.random() < 0.3)
+        one = members[rng.randrange(len(members))]
+        yield build("single:" + name, [[one], [rng.choice(["Flur", "alias", "thread-sensor"])]])
+    for _ in range(ctx.budget(160, 2400)):
+        groups, labels = [], []
+        for _ in range(rng.choice([1, 1, 2, 2, 3])):
+            lab, members = gen_family(rng, rng.choice([1, 2, 2, 3]))
+            groups.append(members)
+            labels.append(lab)
+        for _ in range(rng.choice([0, 0, 1, 2])):
+            groups.append([rng.choice(ALIAS_POOL)])
+        yield build("random:" + "|".join(labels), groups, later=rng.random() < 0.35, exotic=True)
+
+
+def key_strings(ctx, rng, loop, tmpdir):
+    """stream 'key-strings': see RULE"""
+    for i, (label, case) in enumerate(key_string_cases(ctx, rng)):
+        out = Collector()
+        ctx.evaluations += keys_trial(out, loop, tmpdir, case)
+        aliases = [r[0] for r in case["records"]]
+        fam = label.split(":")[0]
+        ctx.nontrivial.add(("key-strings", label[:80], case["writer"], tuple(map(tuple, case["lives"])), "fname" in case, "dir" in case, "cache" in case))
+        ctx.dist["key-strings:" + fam] += 1
+        ctx.dist["key-strings:writer:" + case["writer"]] += 1
+        ctx.dist["key-strings:lives:%d" % len(case["lives"])] += 1
+        ctx.dist["key-strings:saves:%d" % sum(1 for _, s in case["lives"] if s)] += 1
+        for k in ("fname", "dir", "cache", "sibling"):
+            if k in case:
+                ctx.dist["key-strings:own-" + k] += 1
+        if any(r[2] for r in case["records"]):
+            ctx.dist["key-strings:alias-added-in-a-later-life"] += 1
+        for a in aliases:
+            for form in ("NFC", "NFD", "NFKC", "NFKD"):
+                if unicodedata.normalize(form, a) != a:
+                    ctx.dist["key-strings:alias:not-" + form] += 1
+            ctx.dist["key-strings:alias:" + ("ascii" if a.isascii() else "non-bmp" if any(ord(ch) > 0xFFFF for ch in a) else "bmp")] += 1
+            if a != a.casefold():
+                ctx.dist["key-strings:alias:not-casefolded"] += 1
+            if a != a.strip() or not a:
+                ctx.dist["key-strings:alias:blank-or-untrimmed"] += 1
+            if len(a) > 255:
+                ctx.dist["key-strings:alias:long"] += 1
+        for x, y in ((x, y) for j, x in enumerate(aliases) for y in aliases[j + 1:]):
+            for form in ("NFC", "NFKC"):
+                if unicodedata.normalize(form, x) == unicodedata.normalize(form, y):
+                    ctx.dist["key-strings:pair-equal-under-" + form] += 1
+            if x.casefold() == y.casefold():
+                ctx.dist["key-strings:pair-equal-under-casefold"] += 1
+            if x.strip() == y.strip():
+                ctx.dist["key-strings:pair-equal-when-trimmed"] += 1
+        for pd in (r[1] for r in case["records"]):
+            ctx.dist["key-strings:record:" + pd.get("Connection", "legacy-no-Connection")] += 1
+        for sig, what, c in out.found[:2]:
+            ctx.violation(sig, what, c)
+        if i == 0:
+            ctx.sample(case)
+
+
+def cache_keys_trial(out, tmpdir, case):
+    """stream 'cache-keys': a history of updates / removals on a CharacteristicCacheFile (file name and keys caller-chosen),
+    a restart after every step: every key gives back exactly its own entry, a key that holds nothing gives nothing"""
+    d = os.path.join(tmpdir, "cachekeys")
+    shutil.rmtree(d, ignore_errors=True)
+    os.makedirs(d)
+    loc = pathlib.Path(d, case["fname"])
+    keys = case["keys"]
+    live, hist = {}, []
+    try:
+        cf = CharacteristicCacheFile(loc)
+    except Exception as e:  # noqa: BLE001
+        out.violation("cache-keys/start-up-raises", f"CharacteristicCacheFile on a new file named {ascii(case['fname'])} raised {type(e).__name__}: {str(e)[:80]}", case)
+        return 0
+    for n, op in enumerate(case["ops"], 1):
+        try:
+            if op[0] == "update":
+                _, ki, cn, marker, bkey, sn = op
+                cf.async_create_or_update_map(keys[ki], cn, Accessories.from_list(tiny_db(marker, cn)).serialize(), bkey, sn)
+                live[keys[ki]] = [marker, cn, bkey, sn]
+            else:
+                cf.async_delete_map(keys[op[1]])
+                live.pop(keys[op[1]], None)
+        except Exception as e:  # noqa: BLE001
+            out.violation("cache-keys/update-raises", f"step {n}: {op[0]} under the key {show_keys([keys[op[1]]], 1)} raised {type(e).__name__}: {str(e)[:80]}", case)
+            return n
+        hist.append(f"{op[0]}({ascii(keys[op[1]])[:40]})")
+        try:
+            again = CharacteristicCacheFile(loc)   # the restart
+            for k in keys:
+                e = again.get_map(k)
+                got = None if e is None else [next((c.get("value") for a in e["accessories"] for s in a["services"] for c in s["characteristics"] if c["iid"] == 2), None), e.get("config_num"), e.get("broadcast_key"), e.get("state_num")]
+                if got != live.get(k):
+                    owner = [q for q in live if q != k and live[q] == got]
+                    out.violation("cache-keys/entry-not-read-back", f"after {hist} and a restart the key {show_keys([k], 1)} gives [marker, c#, key, s#] = {got}, the harness's record says {live.get(k)}"
+                                  + (f" - that is the entry stored under {show_keys(owner, 1)}" if owner else "") + f"; keys in use: {show_keys(live)}", case)
+                    return n
+        except Exception as e:  # noqa: BLE001
+            out.violation("cache-keys/restart-raises", f"after {hist}: a new CharacteristicCacheFile on the file raised {type(e).__name__}: {str(e)[:80]}", case)
+            return n
+    return len(case["ops"])
+
+
+def cache_keys(ctx, rng, tmpdir):
+    """stream 'cache-keys': see RULE.  Keys that differ only by simple case mapping are not used together (pairing ids are hex
+    strings whose casing a cache may well ignore); each casing is used on its own."""
+    def distinct(keys):
+        out, seen = [], set()
+        for k in keys:
+            sig = {k.lower(), k.upper(), k.casefold()}
+            if not (sig & seen):
+                out.append(k)
+                seen |= sig
+        return out
+
+    plans = [("family:" + name, members) for name, members in STRING_FAMILIES if name != "long"]
+    for _ in range(ctx.budget(40, 600)):
+        groups, labels = [], []
+        for _ in range(rng.choice([1, 2, 2, 3])):
+            if rng.random() < 0.3:
+                mac = ":".join("%02x" % rng.randrange(256) for _ in range(6))
+                groups += [mixed_case(rng, mac, rng.choice(["upper", "lower", "mixed"]))]
+                labels.append("pairing-id")
+            else:
+                lab, members = gen_family(rng, rng.choice([1, 2, 3]))
+                groups += members
+                labels.append(lab)
+        plans.append(("random:" + "|".join(labels), groups))
+    for i, (label, keys) in enumerate(plans):
+        keys = distinct([k for k in keys if len(k) < 20000])
+        if not keys:
+            continue
+        ops = []
+        for j in range(rng.randrange(len(keys), len(keys) + 4)):
+            ki = j if j < len(keys) else rng.randrange(len(keys))
+            if j >= len(keys) and rng.random() < 0.25:
+                ops.append(["delete", ki])
+            else:
+                ops.append(["update", ki, rng.choice([1, 255, 65535, rng.randrange(1, 65536)]), "entry %d of key #%d" % (j, ki), rng.choice([None, "%064x" % rng.getrandbits(256)]), rng.choice([None, 1, rng.randrange(1, 65536)])])
+        case = {"stream": "cache-keys", "label": label, "keys": keys, "ops": ops, "fname": "charmap.json" if rng.random() < 0.5 else fs_component(gen_string(rng)[1], "c") + ".json"}
+        out = Collector()
+        steps = cache_keys_trial(out, tmpdir, case)
+        ctx.evaluations += steps
+        ctx.nontrivial.add(("cache-keys", label[:80], len(keys), tuple(o[0] for o in ops)))
+        ctx.dist["cache-keys:" + label.split(":")[0]] += 1
+        ctx.dist["cache-keys:keys"] += len(keys)
+        for sig, what, c in out.found[:2]:
+            ctx.violation(sig, what, c)
+        if i == 0:
+            ctx.sample(case)
+
+
 KEEP = ("type", "iid", "perms", "format", "value", "minValue", "maxValue", "minStep", "valid-values", "maxLen", "unit")
 
 
@@ -1725,7 +2332,7 @@ def replay(ctx, driver, c):
         finally:
             loop.close()
         return [f"{sig}: {what}" for sig, what, _ in out.found] or None
-    if not isinstance(c, dict) or c.get("stream") not in ("toplevel-restart", "toplevel-cache", "cache-numbers"):
+    if not isinstance(c, dict) or c.get("stream") not in ("toplevel-restart", "toplevel-cache", "cache-numbers", "key-strings", "cache-keys"):
         return None
     loop = asyncio.new_event_loop()
     asyncio.set_event_loop(loop)
@@ -1734,6 +2341,10 @@ def replay(ctx, driver, c):
     try:
         if c["stream"] == "toplevel-restart":
             restart_trial(out, loop, tmpdir, c)
+        elif c["stream"] == "key-strings":
+            keys_trial(out, loop, tmpdir, c)
+        elif c["stream"] == "cache-keys":
+            cache_keys_trial(out, tmpdir, c)
         else:
             cache_trial(out, None if c["stream"] == "cache-numbers" else loop, tmpdir, accessory_dbs(), c)
     finally:
